@@ -32,7 +32,12 @@ RULE = (
     "timeslot recorders only their own.  'short_data_boundary' adds a deterministic enumeration of complete 2-3 burst data "
     "calls (3 SAPs x confirmed/unconfirmed x rate 1/2 + one other rate x blocks-to-follow 1, 2) whose first six user-data "
     "octets take values from {00,01,7F,80,81,FF} on two positions at a time (positions (3,4): all 36 pairs x 3 fills x "
-    "both timeslots; the other position pairs: 4 sampled pairs each).  Distinct = hash of the op list; non-trivial = at least one ended notification, "
+    "both timeslots; the other position pairs: 4 sampled pairs each); 'long_runs' adds 24 deterministic histories with >= 512 "
+    "bursts on one timeslot before the first ended, then the end and a second call.  In about half of all histories (every "
+    "sub-check) the parsed Burst objects are stamped, before they are fed, with the metadata a transport adapter "
+    "(Burst.from_hytera_ipsc / from_mmdvm) sets: a hash-derived sequence_no 0..255, a non-empty (mostly already used) "
+    "stream_no, radio ids, timeslot; ops may also feed the same Burst object again (it then carries the library's own "
+    "earlier numbering / label).  Distinct = hash of the op list; non-trivial = at least one ended notification, "
     "or a start while another transmission was open, or both timeslots used."
 )
 ASSUMPTIONS = [
@@ -49,6 +54,9 @@ ASSUMPTIONS = [
     "no liveness is demanded (the statement does not say *when* a transmission must end) - that part is C07's",
     "voice bursts that precede the first voice-sync burst of a voice transmission (late entry) carry no label requirement",
     "Timeslot.last_packet_received (wall clock) is not observed",
+    "inbound metadata is stamped on Burst.from_bytes objects by attribute assignment (sequence_no, stream_no, source_radio_id, "
+    "target_radio_id, timeslot) - the attributes from_hytera_ipsc / from_mmdvm populate; the hytera_ipsc frame object itself is "
+    "not attached.  I4 and I6 judge the values on the Burst returned by process_incoming_burst",
 ]
 
 LABELS = ["VoiceBurstA", "VoiceBurstB", "VoiceBurstC", "VoiceBurstD", "VoiceBurstE", "VoiceBurstF"]
@@ -331,6 +339,10 @@ class Runner:
                       "ended_data_blocks_max": 0, "ended_with_raiser_on": 0, "restart_checked": 0, "ended_then_started_same_call": 0, "voice_ended_with_blocks": 0,
                       "started_idle": 0}
         self.used_ts = set()
+        self.inbound = None  # None = pristine Burst.from_bytes objects; int salt = stamp transport-side metadata before feeding
+        self.n_fed = 0
+        self.n_stamped = 0
+        self.n_same_object = 0
 
     def close(self):
         self.tm.secrets = self.L["REAL_SECRETS"]
@@ -343,6 +355,9 @@ class Runner:
             r = self.t_raiser if who == "t" else self.ts_raiser[int(who[-1])]
             r.on = bool(op["on"])
             return
+        if k == "inbound":
+            self.inbound = int(op.get("salt", 0)) if op["on"] else None
+            return
         if k not in BURST_KINDS:
             raise HarnessError(f"unknown op {op}")
         try:
@@ -351,17 +366,39 @@ class Runner:
             raise
         except Exception as e:  # the generator must only produce PDUs the library serialises
             raise HarnessError(f"harness could not build burst for {op}: {type(e).__name__}: {e}")
+        same = bool(op.get("same"))  # feed the very same Burst object again (it then carries the library's earlier numbering)
+        burst = None
         for _ in range(int(op.get("rep", 1))):
-            self.feed(op, raw, btype)
+            if burst is None or not same:
+                burst = self.parse(op, raw, btype)
+            else:
+                self.n_same_object += 1
+            self.feed(op, burst)
 
-    def feed(self, op, raw, btype):
+    def parse(self, op, raw, btype):
         L = self.L
-        ts = op.get("ts", 1)
-        k = op["k"]
         try:
             burst = L["Burst"].from_bytes(raw, burst_type=L["BurstTypes"][btype])
         except Exception as e:
             raise HarnessError(f"burst built for {op} is not parseable: {type(e).__name__}: {e}")
+        if self.inbound is not None:
+            # what a transport adapter (Burst.from_hytera_ipsc / from_mmdvm) sets from the frame before the burst reaches the terminal
+            hv = int.from_bytes(hashlib.sha256(f"inbound:{self.inbound}:{self.n_fed}".encode()).digest()[:8], "big")
+            burst.sequence_no = hv % 256  # mostly non-zero, 0 once in a while
+            # a stream id that is already known (the first value of the counter) most of the time: a tracker that fails to
+            # overwrite it cannot pass the freshness clause
+            burst.stream_no = (1).to_bytes(4, "big") if (hv >> 8) % 4 else hashlib.sha256(str(hv).encode()).digest()[:4]
+            burst.source_radio_id = 1 + (hv >> 16) % 0xFFFFFF
+            burst.target_radio_id = self.DMRID
+            burst.timeslot = op.get("ts", 1)
+            self.n_stamped += 1
+        return burst
+
+    def feed(self, op, burst):
+        L = self.L
+        ts = op.get("ts", 1)
+        k = op["k"]
+        self.n_fed += 1
         self.used_ts.add(ts)
         # what this burst is, by the burst's own parse
         idx = self.n_bursts[ts]
@@ -571,6 +608,12 @@ class Runner:
             out.append("history_with_terminal_raiser_fired")
         if not (s["ended_voice"] or s["ended_data"]):
             out.append("history_without_any_ended")
+        if self.n_stamped:
+            out.append("history_with_inbound_metadata")
+            if s["seq_wrap"]:
+                out.append("history_with_inbound_metadata_and_seq_wrap")
+        if self.n_same_object:
+            out.append("history_with_same_object_fed_again")
         return out
 
 
@@ -604,8 +647,10 @@ def _strategies():
         return d(k="data", ts=ts, cc=cc, rate=rate, hex=st.lists(octet, min_size=RATES[rate], max_size=RATES[rate]).map(lambda l: bytes(l).hex()))
 
     data = st.sampled_from(["1/2", "1/2", "3/4", "1"]).flatmap(data_for)
-    toggle = d(k="raise", who=st.sampled_from(["t", "ts1", "ts2"]), on=st.booleans())
-    rules = {"vhdr": vhdr, "term": term, "vsync": vsync, "vemb": vemb, "dhdr": dhdr, "pre": pre, "csbk": csbk, "data": data, "data2": data, "toggle": toggle}
+    toggle = st.one_of(d(k="raise", who=st.sampled_from(["t", "ts1", "ts2"]), on=st.booleans()), d(k="raise", who=st.sampled_from(["t", "ts1", "ts2"]), on=st.booleans()),
+                       d(k="inbound", on=st.booleans(), salt=st.integers(0, 1000)))
+    again = st.tuples(st.one_of(vemb, vemb, vsync, csbk, data, pre, vhdr), st.integers(2, 4)).map(lambda p: {**p[0], "rep": p[1], "same": True})
+    rules = {"vhdr": vhdr, "term": term, "vsync": vsync, "vemb": vemb, "dhdr": dhdr, "pre": pre, "csbk": csbk, "data": data, "data2": data, "toggle": toggle, "again": again}
 
     # ---- scripted prefixes -----------------------------------------------------------------------
     @st.composite
@@ -646,7 +691,7 @@ def _strategies():
         return [
             {"k": "vhdr", "ts": t, "cc": 1, "flco": "group", "so": 0, "pf": 0, "crc": 0, "x": xx},
             {"k": "vsync", "ts": t, "sync": "BsSourcedVoice", "x": xx},
-            {"k": "vemb", "ts": t, "cc": 1, "pi": 0, "lcss": 0, "e32": 0, "x": xx, "rep": draw(st.integers(250, 270))},
+            {"k": "vemb", "ts": t, "cc": 1, "pi": 0, "lcss": 0, "e32": 0, "x": xx, "rep": draw(st.integers(250, 270)), "same": draw(st.booleans())},
         ]
 
     toggles = st.lists(toggle, min_size=0, max_size=3)
@@ -655,6 +700,9 @@ def _strategies():
     with_long_run = st.tuples(toggles, long_voice(), segment).map(lambda p: p[0] + p[1] + p[2])
     # ~45 % no prefix, ~50 % scripted calls, ~5 % a voice run long enough to wrap the sequence counter
     prefix = st.integers(0, 19).flatmap(lambda r: st.just([]) if r < 9 else with_long_run if r == 19 else scripted)
+    # half of the histories feed bursts that arrive with transport-side metadata (sequence number, stream id, radio ids, timeslot)
+    inbound = st.one_of(st.just([]), st.integers(0, 1000).map(lambda sv: [{"k": "inbound", "on": True, "salt": sv}]))
+    prefix = st.tuples(inbound, prefix).map(lambda p: p[0] + p[1])
     return rules, prefix
 
 
@@ -706,7 +754,7 @@ def minimise(ops, clause, klass, budget=600):
             else:
                 i += chunk
         chunk //= 2
-    simple = {"rep": 1, "ts": 1, "cc": 1, "x": 0, "crc": 0, "so": 0, "pf": 0, "e32": 0, "pi": 0, "lcss": 0, "poc": 0, "flco": "group", "sync": "BsSourcedVoice"}
+    simple = {"rep": 1, "same": False, "salt": 0, "ts": 1, "cc": 1, "x": 0, "crc": 0, "so": 0, "pf": 0, "e32": 0, "pi": 0, "lcss": 0, "poc": 0, "flco": "group", "sync": "BsSourcedVoice"}
     for i in range(len(ops)):
         for key, val in simple.items():
             if key in ops[i] and ops[i][key] != val:
@@ -768,13 +816,16 @@ def drv_machine(ctx: Ctx, sub: SubCheck):
 # ---------------------------------------------------------------------------------------------- short exhaustive histories
 
 
+INBOUND_ON = {"k": "inbound", "on": True, "salt": 7}
+
+
 def _alphabet():
     blk12 = "00" * 12
     a = [
         {"k": "vhdr", "ts": 1, "cc": 1, "flco": "group", "so": 0, "pf": 0, "crc": 0x123456, "x": 7},
         {"k": "term", "ts": 1, "cc": 1, "flco": "group", "so": 0, "pf": 0, "crc": 0x123456, "x": 7},
         {"k": "vsync", "ts": 1, "sync": "MsSourcedVoice", "x": 1},
-        {"k": "vemb", "ts": 1, "cc": 1, "pi": 0, "lcss": 1, "e32": 0xDEADBEEF, "x": 2},
+        {"k": "vemb", "ts": 1, "cc": 1, "pi": 0, "lcss": 1, "e32": 0xDEADBEEF, "x": 2, "rep": 2, "same": True},
         {"k": "dhdr", "ts": 1, "cc": 1, "fmt": "unconfirmed", "btf": 1, "a": False, "sap": "IP_PacketData", "poc": 0, "x": 11},
         {"k": "dhdr", "ts": 1, "cc": 1, "fmt": "confirmed", "btf": 2, "a": True, "sap": "UDP_IP_compression", "poc": 0, "x": 12},
         {"k": "pre", "ts": 1, "cc": 1, "btf": 2, "x": 13},
@@ -798,7 +849,7 @@ def drv_exhaustive(ctx: Ctx, sub: SubCheck):
         for Ln in range(2, depth + 1):
             for rest in itertools.product(range(n), repeat=Ln - 2):
                 seq = list(prefix) + list(rest)
-                case = {"ops": [alpha[i] for i in seq]}
+                case = {"ops": ([INBOUND_ON] if sum(seq) % 2 else []) + [alpha[i] for i in seq]}
                 r = Runner()
                 try:
                     try:
@@ -822,8 +873,9 @@ def drv_exhaustive(ctx: Ctx, sub: SubCheck):
 
     ctx.shards(work, items)
     for i in range(n):
-        ctx.run_case(sub.name, oracle_history, {"ops": [alpha[i]]})
-        ctx.tally.case(sub.name, cls="len_1")
+        for pre in ([], [INBOUND_ON]):
+            ctx.run_case(sub.name, oracle_history, {"ops": pre + [alpha[i]]})
+            ctx.tally.case(sub.name, cls="len_1")
     ctx.tally.exhaustive[sub.name] = True
     ctx.tally.extra["exhaustive_history_length"] = depth
     ctx.tally.extra["exhaustive_alphabet"] = alpha
@@ -869,6 +921,8 @@ def _boundary_histories(ctx: Ctx):
                             ops.append({"k": "data", "ts": ts, "cc": 1, "rate": rate, "hex": bytes(first).hex()})
                             if btf == 2:
                                 ops.append({"k": "data", "ts": ts, "cc": 1, "rate": rate, "hex": bytes(fills[(f + 1) % 3](i) for i in range(n)).hex()})
+                            if len(items) % 2:
+                                ops.insert(0, INBOUND_ON)
                             items.append(({"ops": ops}, f"{sap}_{'confirmed' if conf else 'unconfirmed'}_rate_{rate}_btf_{btf}", pq == (3, 4)))
     return items
 
@@ -914,9 +968,58 @@ def drv_boundary(ctx: Ctx, sub: SubCheck):
     ctx.tally.notes.append("short_data_boundary: directed enumeration (value pairs on user-data positions (3,4) complete, other position pairs sampled); identical in both tiers")
 
 
+# ---------------------------------------------------------------------------------------------- directed: long runs
+
+
+def _long_run_histories():
+    """Deterministic histories with >= 2 x 256 bursts on one timeslot and no 'ended' in between (the receive sequence
+    counter wraps twice), followed by the end of the call and a second short call (restart of the numbering):
+    voice call as separate sync / EMB ops, as one EMB op re-parsed 530 times, as one EMB *object* fed 530 times;
+    data: 520 non-preamble CSBKs (a data transmission without header never ends), then header + block, interrupted by a voice
+    call.  Each with pristine bursts and with two different inbound numberings, on timeslot 1 and 2."""
+    out = []
+    for ts in (1, 2):
+        for mode, salt in (("pristine", None), ("inbound", 3), ("inbound", 11)):
+            pre = [] if salt is None else [{"k": "inbound", "on": True, "salt": salt}]
+            vh = {"k": "vhdr", "ts": ts, "cc": 1, "flco": "group", "so": 0, "pf": 0, "crc": 0, "x": 5 + ts}
+            sync = {"k": "vsync", "ts": ts, "sync": "BsSourcedVoice", "x": 1}
+            emb = {"k": "vemb", "ts": ts, "cc": 1, "pi": 0, "lcss": 0, "e32": 0, "x": 2}
+            tail = [{**vh, "k": "term"}, vh, sync, emb, emb, {**vh, "k": "term"}, {"k": "csbk", "ts": ts, "cc": 1, "op": "bs_down", "x": 3}]
+            frames = []
+            for f in range(87):
+                frames.append({**sync, "sync": VOICE_SYNCS[f % 4]})
+                frames += [{**emb, "lcss": (1, 3, 3, 2, 0)[i], "x": i} for i in range(5)]
+            out.append(({"ops": pre + [vh] + frames + tail}, f"voice_separate_ops_{mode}"))
+            out.append(({"ops": pre + [vh, sync, {**emb, "rep": 530}] + tail}, f"voice_one_op_reparsed_{mode}"))
+            out.append(({"ops": pre + [vh, sync, {**emb, "rep": 530, "same": True}] + tail}, f"voice_same_object_{mode}"))
+            blk = {"k": "data", "ts": ts, "cc": 1, "rate": "1/2", "hex": "01" * 12}
+            out.append(({"ops": pre + [{"k": "csbk", "ts": ts, "cc": 1, "op": "bs_down", "x": 3, "rep": 520, "same": salt == 11},
+                                       {"k": "dhdr", "ts": ts, "cc": 1, "fmt": "unconfirmed", "btf": 1, "a": False, "sap": "IP_PacketData", "poc": 0, "x": 9}, blk, vh] + tail},
+                        f"data_csbk_run_{mode}"))
+    return out
+
+
+def drv_long_runs(ctx: Ctx, sub: SubCheck):
+    items = _long_run_histories()
+
+    def work(item, t: Tally):
+        case, label = item
+        r = _judge_history(ctx, sub.name, case, t)
+        t.case(sub.name, nontrivial=r.nontrivial(), cls=label)
+        for c in r.classes():
+            t.cls(sub.name, c)
+        t.extra["long_runs_sequence_wraps"] = t.extra.get("long_runs_sequence_wraps", 0) + r.stats["seq_wrap"]
+        if label.endswith("inbound") and "separate" in label:
+            t.sample(sub.name, {"n_ops": len(case["ops"]), "first_ops": case["ops"][:4], "last_ops": case["ops"][-7:]})
+
+    ctx.shards(work, items)
+    ctx.tally.notes.append("long_runs: deterministic histories of >= 512 bursts on one timeslot without an 'ended' (two wraps of the receive sequence counter), then end + second call; identical in both tiers")
+
+
 SUBCHECKS = [
     SubCheck("short_histories", oracle_history, drv_exhaustive, "all sequences up to length 4 (quick) / 5 (thorough) over an 11-burst reduced alphabet, invariants I1..I7 after every burst"),
     SubCheck("short_data_boundary", oracle_history, drv_boundary, "directed: header + 1..2 blocks, 3 SAPs x 2 modes x rates x both timeslots, first six user-data octets from {00,01,7F,80,81,FF} on two positions at a time ((3,4) complete), I1..I7"),
+    SubCheck("long_runs", oracle_history, drv_long_runs, "directed: >= 2 x 256 bursts on one timeslot without an ended (voice: separate ops / re-parsed / same Burst object; data: CSBK run), pristine and with inbound numbering, then end + second call"),
     SubCheck("machine", oracle_history, drv_machine, "Hypothesis RuleBasedStateMachine over the full alphabet with generated fields, scripted prefixes, raiser toggles"),
 ]
 PREDICATES = {}
